@@ -205,7 +205,14 @@ class History:
                 view = fresh_tasks.nan_safe(np.array(m[name], copy=True).tolist())
             except Exception as e:  # pylint: disable=broad-except
                 view = type(e).__name__
-            out.append((name, sl.start, sl.stop, view))
+            # what the term object itself holds (its own copy of the columns, and of its effect side for group terms)
+            held = []
+            term = m.terms.get(name) if hasattr(m, "terms") else None
+            for obj in (term, getattr(term, "expr", None)):
+                d_ = getattr(obj, "data", None)
+                if isinstance(d_, np.ndarray):
+                    held.append(fresh_tasks.nan_safe(np.array(d_, dtype=float, copy=True).tolist()))
+            out.append((name, sl.start, sl.stop, view, held))
         return out
 
     @classmethod
